@@ -7,7 +7,7 @@
    with a word-level semantics.  Rule rows outside that language are not given a
    meaning here: parse_pat returns None (fail closed).
    No proofs in this file (Proofs/PatternProofs.v). *)
-From Coq Require Import List String Ascii Bool Arith.
+From Coq Require Import List String Ascii Bool Arith NArith.
 From Annet Require Import Base.Str.
 Import ListNotations.
 Open Scope string_scope.
@@ -19,20 +19,21 @@ Notation s_of := string_of_list_ascii.
 (* ------------------------------------------------------------------------------ *)
 (* Characters (ASCII)                                                             *)
 
-Definition code (c : ascii) : nat := nat_of_ascii c.
+Definition code (c : ascii) : N := N_of_ascii c.
 Definition in_range (lo hi c : ascii) : bool :=
-  Nat.leb (code lo) (code c) && Nat.leb (code c) (code hi).
+  N.leb (code lo) (code c) && N.leb (code c) (code hi).
 Definition is_upper (c : ascii) : bool := in_range "A" "Z" c.
 Definition is_lower (c : ascii) : bool := in_range "a" "z" c.
 Definition is_digit (c : ascii) : bool := in_range "0" "9" c.
 Definition is_wordc (c : ascii) : bool :=
   is_upper c || is_lower c || is_digit c || Ascii.eqb c "_".
-Definition lower (c : ascii) : ascii := if is_upper c then ascii_of_nat (code c + 32) else c.
-Definition upper (c : ascii) : ascii := if is_lower c then ascii_of_nat (code c - 32) else c.
+Definition lower (c : ascii) : ascii := if is_upper c then ascii_of_N (code c + 32)%N else c.
+Definition upper (c : ascii) : ascii := if is_lower c then ascii_of_N (code c - 32)%N else c.
 (* printable and not blank: what a word of a row is made of *)
-Definition is_graph (c : ascii) : bool := Nat.leb 33 (code c) && Nat.leb (code c) 126.
-(* Python's \s on 8-bit text: is_ws plus the separators 28..31 *)
-Definition py_ws (c : ascii) : bool := is_ws c || (Nat.leb 28 (code c) && Nat.leb (code c) 31).
+Definition is_graph (c : ascii) : bool := N.leb 33%N (code c) && N.leb (code c) 126%N.
+(* Python's \s on 8-bit text: space, \t..\r, and the separators 28..31 *)
+Definition py_ws (c : ascii) : bool :=
+  N.eqb (code c) 32%N || (N.leb 9%N (code c) && N.leb (code c) 13%N) || (N.leb 28%N (code c) && N.leb (code c) 31%N).
 
 Definition lower_str (s : string) : string := s_of (map lower (l_of s)).
 
@@ -272,7 +273,7 @@ Fixpoint p_items (n : nat) (s : list ascii) : option (list citem * list ascii) :
         | d :: hi :: r2 =>
           if Ascii.eqb d "-" && negb (Ascii.eqb hi "]") then
             if Ascii.eqb c "-" then None
-            else if is_wordc c && is_wordc hi && Nat.leb (code c) (code hi) then
+            else if is_wordc c && is_wordc hi && N.leb (code c) (code hi) then
               match p_items n' r2 with Some (its, r3) => Some (CRng c hi :: its, r3) | None => None end
             else None
           else if Ascii.eqb c "-" && negb (Ascii.eqb d "]") then None   (* `-` only as the last item *)
